@@ -31,9 +31,9 @@ META = {
     "statements + line comments, trim+lstrip, keep_trailing_newline, async, sandboxed, i18n+do+loopcontrols+debug).",
     "note": "Bounds: quick k=4 default / k=3 other configs, keyword alphabet <=2 (framed <=2), d<=1 on the 400 shortest seeds "
     "(40 in the other configs), identifier pairs over 20 (10) names; thorough k=5 default / k=4 elsewhere, keyword alphabet "
-    "<=3 (framed <=3), d<=1 on all seeds (300 shortest in the other configs), d<=2 on the 60 (15) shortest seeds, all pairs.  "
+    "<=3 (framed <=3 in default/asp/line/ext, <=2 elsewhere), d<=1 on all seeds (300 shortest in the other configs), d<=2 on the 60 (15) shortest seeds, all pairs.  "
     "compile(raw)+compile() is skipped only for core-alphabet strings of the maximal length that from_string already "
-    "loaded (same parse/generate/compile steps).  Out of scope by construction: "
+    "loaded or Environment.parse already rejected (same parse/generate/compile steps).  Out of scope by construction: "
     "integer literals beyond the int-to-str digit limit and nesting beyond the recursion limit (both need inputs far "
     "larger than any bound here).  'Renderable' is checked as 'a Template object whose module code compiled'; "
     "rendering belongs to other properties.",
@@ -273,7 +273,8 @@ class Checker:
     def check(self, src, full=True):
         """Apply the oracle to one source.  full=False skips the third entry
         point when from_string already succeeded (it repeats the same parse,
-        generate and compile() steps)."""
+        generate and compile() steps) or when Environment.parse already raised
+        (compile(raw=True) starts with the very same parse)."""
         p = self.p
         p.evals += 1
         try:
@@ -294,7 +295,7 @@ class Checker:
     def _attempt(self, src, full, seconds):
         env = make_env(self.ci)  # fresh environment per case
         nontrivial = None
-        loaded = False
+        loaded = parse_failed = False
         with core.alarm(seconds):
             for api in APIS:
                 self._api = api
@@ -306,7 +307,7 @@ class Checker:
                         r = env.parse(src)
                         ok = isinstance(r, self.TemplateNode)
                     else:
-                        if loaded and not full:
+                        if (loaded or parse_failed) and not full:
                             continue
                         r = env.compile(src, raw=True)
                         ok = isinstance(r, str)
@@ -317,6 +318,8 @@ class Checker:
                     elif nontrivial is None:
                         nontrivial = "ok"
                 except self.TSE as e:
+                    if api == "parse":
+                        parse_failed = True
                     ln = e.lineno
                     hi = 1 + line_breaks(src)
                     msg = e.message or ""
@@ -618,7 +621,7 @@ def run(ctx: core.Ctx):
     k_def, k_oth = (4, 3) if q else (5, 4)
     k2 = 2 if q else 3
     bounds = {"core_alphabet": len(SIGMA1), "keyword_alphabet": len(SIGMA2), "k_default": k_def, "k_other_configs": k_oth,
-              "k_keyword_alphabet": k2, "k_keyword_framed": k2, "configs": [c[0] for c in CONFIGS],
+              "k_keyword_alphabet": k2, "configs": [c[0] for c in CONFIGS],
               "corpus_seeds": len(CORPUS)}
     shards = []
     tuples = 0
@@ -628,9 +631,12 @@ def run(ctx: core.Ctx):
         tuples += string_count(len(alphabet(ci, 1)), k)
         shards += string_shards(ci, 2, k2)
         tuples += string_count(len(alphabet(ci, 2)), k2)
+        # framed keyword strings: full bound in the configurations that change the tag syntax, one less elsewhere
+        kf = k2 if (q or CONFIGS[ci][0] in ("default", "asp", "line", "ext")) else k2 - 1
+        bounds.setdefault("k_keyword_framed", {})[CONFIGS[ci][0]] = kf
         for frame in ("block", "var"):
-            shards += string_shards(ci, 2, k2, frame)
-            tuples += string_count(len(alphabet(ci, 2)), k2)
+            shards += string_shards(ci, 2, kf, frame)
+            tuples += string_count(len(alphabet(ci, 2)), kf)
     bounds["fragment_tuples"] = tuples
     ctx.pmap(shard_strings, shards)
 
